@@ -310,12 +310,13 @@ theorem c13_destroy_parked {mode : Bool} {sc : List Act} {s : State} (h : Reacha
   exact (c13_guards_once hr'' g).2.1
 
 /-- **When is the generator "busy"?** `_caller` is non-null (the assert of next_sync / next_async / next_future fires)
-exactly while the body is parked on an awaited operation inside an access — or after `co_await next()` was issued on a generator
-that had ended with an exception: `next_async` stores `_caller` *before* it throws `no_more_values` (see the witness below).
-That access comes after the exception and after an end indication, i.e. beyond what the property speaks about. -/
+exactly while the body is parked on an awaited operation inside an access — or after `next_async` (`co_await next()` on a generator
+that ended with an exception, `next().subscribe()` on any finished generator) threw `no_more_values`: it stores `_caller`
+*before* it throws (see the witness below). That access is answered without resuming the body, i.e. it comes after the complete
+sequence and its ending were delivered (`c13_end_once`) — beyond what the property speaks about. -/
 theorem c13_busy_iff {mode : Bool} {sc : List Act} {s : State} (h : Reachable mode sc s) :
     (s.caller ≠ .none ↔ ((∃ k, s.bst = .await k) ∨ s.stuck = true)) ∧
-    (s.stuck = true → s.bst = .final ∧ s.exp = true ∧ s.post ≠ []) := by
+    (s.stuck = true → s.bst = .final ∧ s.post ≠ []) := by
   have hi := reachable_inv h
   have hnr := reachable_not_run h
   constructor
@@ -334,7 +335,7 @@ theorem c13_busy_iff {mode : Bool} {sc : List Act} {s : State} (h : Reachable mo
       · exact Or.inr hs
   · intro hs
     have := hi.stuck_fin hs
-    exact ⟨this.1, this.2.1, this.2.2.2⟩
+    exact ⟨this.1, this.2.2⟩
 
 /-! ### the hypotheses are satisfiable: concrete non-trivial runs (kernel-evaluated) -/
 
@@ -360,6 +361,14 @@ example :
 example :
     (run (init false [.guard, .guard, .yield 1, .yield 2]) [.syncBegin 0, .syncEnd, .destroy]).dtors = [0, 1] := by
   decide
+
+/-- a callback consumer (`next(a).subscribe(&cb)`, re-armed each time the callback is called) over a body that awaits operation 0
+between its yields: the second access is left pending inside the first notification and is served when operation 0 completes -/
+example :
+    (run (init true [.yield 1, .await 0, .yieldNull, .yield 2]) [.sub 10, .sub 11, .complete 0, .sub 12]).seen
+      = [.val 1, .val 2, .fin] ∧
+    (run (init true [.yield 1, .await 0, .yieldNull, .yield 2]) [.sub 10, .sub 11, .complete 0, .sub 12]).gotLog
+      = [(11, 11), (11, 11), (12, 12)] := by decide
 
 /-- **Witness of the `next_async` ordering quirk** (as-is code, generator.h:202-208): after the body's exception was
 delivered, a `co_await next()` throws `no_more_values` but leaves `_caller` set, so the following access trips the
